@@ -206,7 +206,8 @@ def run_tlc(module, cfg, workers=1, env=None, timeout=3600, coverage=False, simu
     r["ok"] = ("Model checking completed. No error has been found." in out) or \
               (simulate is not None and "Error:" not in out)
     if "Parsing or semantic analysis failed" in out or "TLC threw an unexpected exception" in out:
-        raise ToolError("TLC failed on %s/%s:\n%s" % (module, cfg, out[-5000:]))
+        i = out.find("Error:")
+        raise ToolError("TLC failed on %s/%s:\n%s" % (module, cfg, out[max(0, i - 300):i + 4000]))
     return r
 
 
